@@ -19,6 +19,9 @@ State
              its `fork` failed (counter incremented) / runs the task inline / took `<-chClose` and is in its
              drain loop, between two non-blocking receives / runs a drained task inline / returned
 * `goers`    `Go` calls in flight after a failed `fork`: decrement pending / send pending
+* `callers`  tasks inside `f()` through `TaskPool.Call` (`tp.caller(f)` on the calling goroutine: no counter, no
+             queue, no pool goroutine — used by nbhttp as `serverCall`); the correspondence run does not exercise
+             `Call` yet (model + theorems only)
 * `stopAdd`, `closed`   `Stop`'s two statements
 * histories: `handed` (tasks passed to `Go`), `done` (tasks that returned or panicked),
              `dropped` (tasks whose `Go` returned through `<-chClose`), `panics`
@@ -55,6 +58,7 @@ structure St where
   panics  : Nat := 0
   inflight : List Nat := []
   late    : List Nat := []
+  callers : List Nat := []
   deriving DecidableEq, Repr
 
 inductive Act
@@ -72,6 +76,8 @@ inductive Act
   | dFork                        -- dispatcher: fork(f): AddInt64(+1), comparison, start a worker or not
   | dUndo                        -- dispatcher: AddInt64(-1) after the failed fork (the repair), then run inline
   | dFinish (p : Bool)           -- dispatcher: the inline task returns / panics
+  | call (t : Nat)               -- Call: `tp.caller(f)` entered on the caller's goroutine (any state, also after Stop)
+  | cFinish (i : Nat) (p : Bool) -- Call: the task returns (p: panics into caller's recover); `Call` returns
   | stopAdd                      -- Stop: AddInt64(maxConcurrent)
   | stopClose                    -- Stop: close(chClose)
   deriving Repr
@@ -151,6 +157,12 @@ def step (g : Cfg) (s : St) : Act → Option St
     | .running t => some { s with disp := .idle, done := s.done ++ [t], panics := if p then s.panics + 1 else s.panics }
     | .drunning t => some { s with disp := .drain, done := s.done ++ [t], panics := if p then s.panics + 1 else s.panics }
     | _ => none
+  | .call t => some { s with callers := s.callers ++ [t], handed := s.handed ++ [t] }
+  | .cFinish i p =>
+    match s.callers[i]? with
+    | some t => some { s with callers := s.callers.eraseIdx i, done := s.done ++ [t],
+                              panics := if p then s.panics + 1 else s.panics }
+    | none => none
   | .stopAdd => if s.stopAdd then none else some { s with conc := s.conc + g.maxC, stopAdd := true }
   | .stopClose =>
     if s.stopAdd && !s.closed then some { s with closed := true, inflight := s.goers.flatMap gTask } else none
@@ -167,10 +179,13 @@ def run (g : Cfg) : St → List Act → St
 def wTask : WPh → List Nat | .running t => [t] | _ => []
 def dTask : Disp → List Nat | .holding t | .failed t | .running t | .drunning t => [t] | _ => []
 
+def cTask (t : Nat) : List Nat := [t]
+
 def dRun : Disp → List Nat | .running t | .drunning t => [t] | _ => []
 def dPend : Disp → List Nat | .holding t | .failed t => [t] | _ => []
 
-/-- tasks inside `f()` right now -/
+/-- tasks inside `f()` right now on the pool's own goroutines (what the bound is about; tasks run through `Call` are
+    in `callers`) -/
 def runningTasks (s : St) : List Nat := s.workers.flatMap wTask ++ dRun s.disp
 
 /-- tasks the pool holds without running them: in a `Go` call in flight, in the queue, or in the
